@@ -209,7 +209,7 @@ Record flda_post (t t' : transfer) (acc acc' : list (N * list N)) (pnr : N) (raw
   fp_bs_pos : 0 < t_bs t -> t_bs t' = t_bs t;
   fp_inactive : is_active (t_state t) = false ->
                 t_state t' = t_state t /\ ch = false /\ acc' = acc /\ t_data t' = t_data t /\ t_size t' = t_size t /\
-                t_payload t' = t_payload t;
+                t_payload t' = t_payload t /\ t_next t' = t_next t;
   fp_nochange : ch = false -> t_state t' = t_state t;
   fp_ms : t_state t' = MissingStart -> t_state t = MissingStart;
   fp_started : t_state t' = Started -> t_state t = Started;
@@ -405,10 +405,10 @@ Proof.
       * destruct (K8 eq_refl) as [Hs [_ [_ [_ [Hsz _]]]]]. rewrite Hs in H. rewrite Hsz. apply A10. exact H.
     + destruct (is_active (t_state t)) eqn:Ea.
       * apply (K13 H eq_refl).
-      * destruct (K8 eq_refl) as [Hs [_ [_ [_ [Hsz Hpl]]]]]. rewrite Hs in H. rewrite Hsz, Hpl. apply A10. exact H.
+      * destruct (K8 eq_refl) as [Hs [_ [_ [_ [Hsz [Hpl _]]]]]]. rewrite Hs in H. rewrite Hsz, Hpl. apply A10. exact H.
     + destruct (is_active (t_state t)) eqn:Ea.
       * apply (K13 H eq_refl).
-      * destruct (K8 eq_refl) as [Hs [_ [Hacc _]]]. rewrite Hs in H. rewrite (tl_next_eq _ _ _ _ _ _ _ HN Hacc H). apply A10. exact H.
+      * destruct (K8 eq_refl) as [Hs [_ [_ [_ [_ [_ Hnx]]]]]]. rewrite Hs in H. rewrite Hnx. apply A10. exact H.
     + destruct K14 as [->|[-> [Hp Hl]]]; [exact A11|]. apply Forall_app. split; [exact A11|]. constructor; [|constructor].
       cbn. rewrite Hb, A5, A4 in Hl. destruct (pnr =? f_nr f) eqn:E.
       * destruct Hl as [Hl|[_ Hl]]; lia.
@@ -417,7 +417,7 @@ Proof.
     + intros Hc. rewrite K12 by (rewrite Hc; reflexivity). apply R4. apply K10. exact Hc.
     + intros Hc. destruct (is_active (t_state t)) eqn:Ea.
       * apply (K13 Hc eq_refl).
-      * destruct (K8 eq_refl) as [Hs [_ [_ [_ [Hsz Hpl]]]]]. rewrite Hs in Hc. rewrite Hsz, Hpl. apply R5. exact Hc.
+      * destruct (K8 eq_refl) as [Hs [_ [_ [_ [Hsz [Hpl _]]]]]]. rewrite Hs in Hc. rewrite Hsz, Hpl. apply R5. exact Hc.
     + assert (Ho : Forall (fun op => lenN (snd op) <= t_bs t') acc).
       { eapply Forall_impl; [|exact R6]. cbn. intros a Ha. lia. }
       destruct K14 as [->|[-> [Hp Hl]]]; [exact Ho|]. apply Forall_app. split; [exact Ho|]. constructor; [|constructor].
@@ -516,12 +516,12 @@ Proof.
 Qed.
 Lemma ho_t_static t : t_key (ho_t t) = t_key t /\ t_state (ho_t t) = t_state t /\ t_saved (ho_t t) = t_saved t /\
                       t_name (ho_t t) = t_name t /\ t_nr (ho_t t) = t_nr t /\ t_bs (ho_t t) = t_bs t /\ t_size (ho_t t) = t_size t
-                      /\ t_payload (ho_t t) = t_payload t.
+                      /\ t_payload (ho_t t) = t_payload t /\ t_next (ho_t t) = t_next t.
 Proof. unfold ho_t. destruct (takes t); cbn; repeat split; reflexivity. Qed.
 Lemma Prov_ho_t c pre t acc : Prov c pre t acc -> Prov c pre (ho_t t) acc.
 Proof.
-  destruct (ho_t_static t) as [E1 [E2 [E3 [E4 [E5 [E6 [E7 E8]]]]]]].
-  intros [[m [f H]]|H]; [left; exists m, f|right; unfold Recovered in *]; rewrite ?E1, ?E2, ?E4, ?E5, ?E6, ?E7, ?E8; exact H.
+  destruct (ho_t_static t) as [E1 [E2 [E3 [E4 [E5 [E6 [E7 [E8 E9]]]]]]]].
+  intros [[m [f H]]|H]; [left; exists m, f|right; unfold Recovered in *]; rewrite ?E1, ?E2, ?E4, ?E5, ?E6, ?E7, ?E8, ?E9; exact H.
 Qed.
 
 Lemma update_state_inv c pre s s' : update_state s = Ok s' -> Inv0 c pre s -> Inv c pre s'.
@@ -552,13 +552,13 @@ Lemma check_auto_save_spec c t fs t1 fs1 acc ops :
   check_auto_save c t fs = (t1, fs1) -> TLoc ops t acc -> t_state t = Complete ->
   fs_ext fs fs1 /\ TLoc ops t1 acc /\
   t_key t1 = t_key t /\ t_state t1 = t_state t /\ t_name t1 = t_name t /\ t_nr t1 = t_nr t /\ t_bs t1 = t_bs t /\
-  t_size t1 = t_size t /\ t_payload t1 = t_payload t /\
+  t_size t1 = t_size t /\ t_payload t1 = t_payload t /\ t_next t1 = t_next t /\
   (forall p, t_saved t1 = Some p -> t_saved t = Some p \/ lookup_path p fs1 = Some (concat (map snd acc))).
 Proof.
   unfold check_auto_save. intros H HT Hst.
   assert (Hid : (t1, fs1) = (t, fs) -> fs_ext fs fs1 /\ TLoc ops t1 acc /\
     t_key t1 = t_key t /\ t_state t1 = t_state t /\ t_name t1 = t_name t /\ t_nr t1 = t_nr t /\ t_bs t1 = t_bs t /\
-    t_size t1 = t_size t /\ t_payload t1 = t_payload t /\
+    t_size t1 = t_size t /\ t_payload t1 = t_payload t /\ t_next t1 = t_next t /\
     (forall p, t_saved t1 = Some p -> t_saved t = Some p \/ lookup_path p fs1 = Some (concat (map snd acc)))).
   { intros E. inversion E; subst. split; [apply fs_ext_refl|]. split; [exact HT|]. repeat split; auto. }
   destruct (c_glob c) as [g|]; [|apply Hid; congruence].
@@ -644,12 +644,12 @@ Proof.
   intros HI Ht Hk HT HP Hc Hs H. unfold after_change in H.
   destruct (tstate_eqb (t_state t') Complete) eqn:Est.
   - apply tstate_eqb_spec in Est. destruct (check_auto_save c t' (s_fs s)) as [t1 fs1] eqn:Eas.
-    destruct (check_auto_save_spec _ _ _ _ _ _ _ Eas HT Est) as [He [HT1 [K1 [K2 [K3 [K4 [K5 [K6 [K7 K8]]]]]]]]].
+    destruct (check_auto_save_spec _ _ _ _ _ _ _ Eas HT Est) as [He [HT1 [K1 [K2 [K3 [K4 [K5 [K6 [K7 [K9 K8]]]]]]]]]].
     eapply update_state_inv; [exact H|]. eapply put_inv0; eauto; [congruence|].
     exists acc'. rewrite K1. split; [exact HT1|]. split.
     + split; [intros d Hd; rewrite K2; auto|]. intros p Hp. rewrite K2. split; [exact Est|].
       destruct (K8 p Hp) as [Ho|Hn]; [|exact Hn]. eapply fs_ext_lookup; [exact He|]. apply Hs. exact Ho.
-    + destruct HP as [[m [f HA]]|HR]; [left; exists m, f|right; unfold Recovered in *]; rewrite ?K1, ?K2, ?K3, ?K4, ?K5, ?K6, ?K7; assumption.
+    + destruct HP as [[m [f HA]]|HR]; [left; exists m, f|right; unfold Recovered in *]; rewrite ?K1, ?K2, ?K3, ?K4, ?K5, ?K6, ?K7, ?K9; assumption.
   - eapply update_state_inv; [exact H|]. eapply put_inv0; eauto; [apply fs_ext_refl|].
     exists acc'. split; [exact HT|]. split; [split; assumption|exact HP].
 Qed.
@@ -735,4 +735,668 @@ Proof.
     + pose proof (ff_nochange _ _ _ HP eq_refl) as ->. inversion Ef; subst s'; clear Ef. unfold put_transfer.
       rewrite (replace_nth_id _ _ _ Ht). destruct s; cbn. split; [exact HW|exact Hpub].
   - inversion H; subst. split; assumption.
+Qed.
+
+(* ------------------------------------------------------------------ whole runs *)
+Lemma run_app_inv (P : list msg -> st -> Prop) c :
+  (forall pre s m s' b, P pre s -> step c s m = Ok (s', b) -> P (pre ++ [m]) s') ->
+  forall ms pre s s' rets, P pre s -> run c s ms = Ok (s', rets) -> P (pre ++ ms) s'.
+Proof.
+  intros Hstep. induction ms as [|m r IH]; intros pre s s' rets HP H; cbn in H.
+  - inversion H; subst. rewrite app_nil_r. exact HP.
+  - destruct (step c s m) as [[s1 b]| |] eqn:Es; cbn [bind] in H; try discriminate.
+    destruct (run c s1 r) as [[s2 bs]| |] eqn:Er; cbn [bind] in H; try discriminate.
+    inversion H; subst s2 rets; clear H.
+    replace (pre ++ m :: r) with ((pre ++ [m]) ++ r) by (rewrite <- app_assoc; reflexivity).
+    eapply IH; [|exact Er]. eapply Hstep; eassumption.
+Qed.
+
+Lemma Inv_init c fs : Inv c [] (init_st fs).
+Proof.
+  split; [|reflexivity]. constructor; cbn.
+  - intros k i H. discriminate.
+  - intros i t H. destruct i; discriminate.
+  - intros i d H. discriminate.
+Qed.
+
+Lemma run_Inv c fs ms s rets : run c (init_st fs) ms = Ok (s, rets) -> Inv c ms s.
+Proof.
+  intros H. change ms with ([] ++ ms).
+  apply (run_app_inv (Inv c) c) with (s := init_st fs) (rets := rets); [|apply Inv_init|exact H].
+  intros pre s0 m s' b HI Hs. eapply step_inv; eassumption.
+Qed.
+
+(* whatever the package sequence: a transfer that is Complete holds exactly packages 1..n of the log *)
+Theorem complete_implies_exact c fs ms s rets i t :
+  run c (init_st fs) ms = Ok (s, rets) ->
+  nth_error (s_transfers s) i = Some t -> t_state t = Complete ->
+  exists pk : list (N * list N),
+    sublist pk (ops_for c (t_key t) ms) /\
+    map fst pk = nums 1 (length pk) /\
+    t_size t = lenN (concat (map snd pk)) /\
+    (forall d, saved_bytes s i = Some d -> d = concat (map snd pk)) /\
+    (forall p, t_saved t = Some p -> lookup_path p (s_fs s) = Some (concat (map snd pk))) /\
+    (t_data t = [] \/ t_data t = concat (map snd pk)) /\
+    ((exists m f, In m ms /\ flst_of c m = Some (t_key t, f) /\ t_name t = f_name f /\
+                  N.of_nat (length pk) = f_nr f /\ sizes_ok (f_bs f) (f_nr f) pk /\
+                  (f_size f = 0 \/ f_size f = lenN (concat (map snd pk))))
+     \/ (t_name t = MISSING_FLST /\ Forall (fun op => lenN (snd op) <= t_bs t) pk)).
+Proof.
+  intros Hrun Ht Hst. destruct (run_Inv _ _ _ _ _ Hrun) as [HI _].
+  destruct (inv_t _ _ _ HI i t Ht) as [acc [T1 [[T2 T3] T4]]].
+  exists acc. destruct T1 as [S1 S2 S3 S4 S5 S6 S7 S8 S9 S10 S11].
+  assert (Hsz : t_size t = lenN (concat (map snd acc))).
+  { rewrite <- S4. destruct T4 as [[m [f [_ [_ [_ [_ [_ [_ [_ [_ [_ [A10 _]]]]]]]]]]]]|[_ [_ [_ [_ [R5 _]]]]]]; [apply A10; exact Hst|auto]. }
+  split; [exact S1|]. split; [exact S2|]. split; [exact Hsz|].
+  split; [intros d Hd; apply (T2 d Hd)|]. split; [intros p Hp; apply (T3 p Hp)|]. split; [exact S9|].
+  destruct T4 as [[m [f [A1 [A2 [A3 [A4 [A5 [A6 [A7 [A8 [A9 [A10 A11]]]]]]]]]]]]|[R1 [R2 [R3 [R4 [R5 R6]]]]]].
+  - left. exists m, f. destruct (A10 Hst) as [B1 [B2 B3]]. repeat split; auto; try lia.
+  - right. auto.
+Qed.
+
+(* a Complete transfer stays Complete, and what is reported (the published tree) shows the current state *)
+Theorem published_states_current c fs ms s rets :
+  run c (init_st fs) ms = Ok (s, rets) ->
+  map (fun t => (t_key t, t_state t)) (s_pub s) = map (fun t => (t_key t, t_state t)) (s_transfers s).
+Proof. intros H. destruct (run_Inv _ _ _ _ _ H) as [_ Hp]. exact Hp. Qed.
+
+(* only data of Complete transfers is handed out by the save command *)
+Theorem saved_only_complete c fs ms s rets i d :
+  run c (init_st fs) ms = Ok (s, rets) -> saved_bytes s i = Some d ->
+  exists t, nth_error (s_transfers s) i = Some t /\ t_state t = Complete.
+Proof.
+  intros H Hd. destruct (run_Inv _ _ _ _ _ H) as [HI _].
+  pose proof (inv_comp _ _ _ HI i d Hd) as Hl. apply nth_error_Some in Hl.
+  destruct (nth_error (s_transfers s) i) as [t|] eqn:Et; [|contradiction].
+  exists t. split; [reflexivity|]. destruct (inv_t _ _ _ HI i t Et) as [acc [_ [[T2 _] _]]]. apply (T2 d Hd).
+Qed.
+
+(* ------------------------------------------------------------------ auto save: confinement, no overwrite *)
+(* a single normal path component: not empty, no separator, neither "." nor ".." *)
+Definition single_normal (b : list N) : Prop :=
+  b <> [] /\ ~ In SLASH b /\ b <> [DOT] /\ b <> [DOT; DOT].
+
+Lemma split_slash_no_slash p : forall cur c, ~ In SLASH cur -> In c (split_slash cur p) -> ~ In SLASH c.
+Proof.
+  induction p as [|b r IH]; intros cur c Hcur Hin; cbn in Hin.
+  - destruct Hin as [<-|[]]. intros H. apply in_rev in H. contradiction.
+  - destruct (b =? SLASH) eqn:E.
+    + destruct Hin as [<-|Hin].
+      * intros H. apply in_rev in H. contradiction.
+      * eapply IH; [|exact Hin]. intros [].
+    + eapply IH; [|exact Hin]. intros [H|H]; [|contradiction]. apply N.eqb_neq in E. congruence.
+Qed.
+
+Lemma file_name_back_spec l s : file_name_back l = Some s -> In s l /\ s <> [] /\ s <> [DOT] /\ s <> [DOT; DOT].
+Proof.
+  induction l as [|c r IH]; cbn; intros H; [discriminate|].
+  destruct (bytes_eqb c []) eqn:E1.
+  { destruct (IH H) as [Ha Hb]. split; [right; exact Ha|exact Hb]. }
+  destruct (bytes_eqb c [DOT]) eqn:E2.
+  { destruct r; [discriminate|]. destruct (IH H) as [Ha Hb]. split; [right; exact Ha|exact Hb]. }
+  destruct (bytes_eqb c [DOT; DOT]) eqn:E3; [discriminate|].
+  inversion H; subst s. split; [left; reflexivity|].
+  repeat split; intros Hc; subst c; cbn in *; discriminate.
+Qed.
+
+Lemma file_name_of_single_normal p s : file_name_of p = Some s -> single_normal s.
+Proof.
+  unfold file_name_of. intros H. apply file_name_back_spec in H. destruct H as [Hin [H1 [H2 H3]]].
+  split; [exact H1|]. split; [|split; assumption].
+  apply in_rev in Hin. eapply split_slash_no_slash; [|exact Hin]. intros [].
+Qed.
+
+Lemma dec_digits_digits fuel : forall n acc, Forall (fun d => 48 <= d <= 57) acc -> Forall (fun d => 48 <= d <= 57) (dec_digits fuel n acc).
+Proof.
+  induction fuel as [|f IH]; intros n acc Ha; cbn [dec_digits]; [exact Ha|].
+  assert (Hd : Forall (fun d => 48 <= d <= 57) ((48 + n mod 10) :: acc)).
+  { constructor; [|exact Ha]. assert (Hm : n mod 10 < 10) by (apply N.mod_upper_bound; discriminate). cbn beta. generalize dependent (n mod 10). intros r Hr. lia. }
+  destruct (n / 10 =? 0); [exact Hd|apply IH; exact Hd].
+Qed.
+
+Lemma base_name_single_normal t : single_normal (base_name t).
+Proof.
+  unfold base_name. destruct (file_name_of (t_name t)) as [s|] eqn:E; [eapply file_name_of_single_normal; exact E|].
+  assert (Hd : Forall (fun d => 48 <= d <= 57) (dec (serial_of t))) by (apply dec_digits_digits; constructor).
+  split; [discriminate|]. split; [|split; discriminate].
+  intros H. apply in_app_or in H. destruct H as [H|H].
+  - cbn in H. unfold SLASH in H. repeat (destruct H as [H|H]; [discriminate|]). contradiction.
+  - apply in_app_or in H. destruct H as [H|H].
+    + rewrite Forall_forall in Hd. apply Hd in H. unfold SLASH in H. lia.
+    + cbn in H. unfold SLASH in H. destruct H as [H|[]]. discriminate.
+Qed.
+
+(* Path::join with a single normal component appends it to the directory *)
+Lemma path_join_single dir base : single_normal base ->
+  path_join dir base = base /\ dir = [] \/
+  (dir <> [] /\ last dir 0 = SLASH /\ path_join dir base = dir ++ base) \/
+  (dir <> [] /\ last dir 0 <> SLASH /\ path_join dir base = dir ++ SLASH :: base).
+Proof.
+  intros [H1 [H2 _]]. unfold path_join. destruct base as [|b r]; [contradiction|].
+  destruct (b =? SLASH) eqn:E; [apply N.eqb_eq in E; exfalso; apply H2; left; auto|].
+  destruct dir as [|d dr]; [left; auto|]. right.
+  destruct (last (d :: dr) 0 =? SLASH) eqn:El.
+  - left. apply N.eqb_eq in El. repeat split; auto; discriminate.
+  - right. apply N.eqb_neq in El. repeat split; auto; discriminate.
+Qed.
+
+(* the file system after one message: unchanged, or one new file at dir/base_name that did not exist *)
+Definition fs_grow (c : cfg) (fs fs' : list (list N * list N)) : Prop :=
+  fs' = fs \/ exists t d, fs' = (path_join (save_dir c) (base_name t), d) :: fs /\
+                          path_exists fs (path_join (save_dir c) (base_name t)) = false.
+
+Lemma check_auto_save_fs c t fs : fs_grow c fs (snd (check_auto_save c t fs)).
+Proof.
+  unfold check_auto_save. destruct (c_glob c) as [g|]; [|left; reflexivity].
+  destruct (tstate_eqb (t_state t) Complete && negb (bytes_eqb (t_data t) []) && g (t_name t)); [|left; reflexivity].
+  destruct (negb (path_exists fs (path_join (save_dir c) (base_name t)))) eqn:E; cbn; [|left; reflexivity].
+  right. exists t, (t_data t). split; [reflexivity|]. apply negb_true_iff in E. exact E.
+Qed.
+
+Lemma update_state_fs s s' : update_state s = Ok s' -> s_fs s' = s_fs s.
+Proof.
+  unfold update_state, add_chk. destruct (s_gen s + 1 <=? u32max); cbn [bind]; [|discriminate].
+  intros H. inversion H. reflexivity.
+Qed.
+
+Lemma after_change_fs c s i t s' : after_change c s i t = Ok s' -> fs_grow c (s_fs s) (s_fs s').
+Proof.
+  unfold after_change. intros H. destruct (tstate_eqb (t_state t) Complete).
+  - pose proof (check_auto_save_fs c t (s_fs s)) as Hg. destruct (check_auto_save c t (s_fs s)) as [t1 fs1].
+    apply update_state_fs in H. cbn in H, Hg. rewrite H. exact Hg.
+  - apply update_state_fs in H. cbn in H. rewrite H. left. reflexivity.
+Qed.
+
+Lemma step_fs c s m s' b : step c s m = Ok (s', b) -> fs_grow c (s_fs s) (s_fs s').
+Proof.
+  unfold step. intros H. destruct (classify c m).
+  - unfold step_flst in H. destruct ((0 <? f_nr (parse_flst (m_args m))) && (0 <? f_bs (parse_flst (m_args m)))); cbn [bind] in H.
+    2:{ inversion H. left. reflexivity. }
+    destruct (with_capacity _); cbn [bind] in H; try discriminate.
+    destruct (update_state _) as [s1| |] eqn:Eu; cbn [bind] in H; try discriminate. inversion H; subst.
+    apply update_state_fs in Eu. left. rewrite Eu. reflexivity.
+  - unfold step_flda in H. destruct (flda_args (m_args m)) as [[[serial pnr] raw]|]; cbn [bind] in H.
+    2:{ inversion H. left. reflexivity. }
+    destruct (flda_apply _ _ _ _ _) as [s1| |] eqn:Ef; cbn [bind] in H; try discriminate. inversion H; subst. clear H.
+    unfold flda_apply in Ef. destruct (lookup_key _ _) as [i|].
+    + destruct (nth_error _ _) as [t|]; [|discriminate].
+      destruct (add_flda t pnr raw) as [[t' ch]| |]; cbn [bind] in Ef; try discriminate. destruct ch.
+      * eapply after_change_fs. exact Ef.
+      * inversion Ef. left. reflexivity.
+    + destruct (pnr =? 1); [|inversion Ef; left; reflexivity].
+      destruct (with_capacity _); cbn [bind] in Ef; try discriminate.
+      destruct (add_flda _ _ _) as [[t' ch]| |]; cbn [bind] in Ef; try discriminate.
+      apply update_state_fs in Ef. left. rewrite Ef. reflexivity.
+  - unfold step_flfi in H. destruct (flfi_apply _ _ _) as [s1| |] eqn:Ef; cbn [bind] in H; try discriminate. inversion H; subst. clear H.
+    unfold flfi_apply in Ef. destruct (lookup_key _ _) as [i|]; [|inversion Ef; left; reflexivity].
+    destruct (nth_error _ _) as [t|]; [|discriminate].
+    destruct (check_finished t true) as [[t' ch]| |]; cbn [bind] in Ef; try discriminate. destruct ch.
+    + eapply after_change_fs. exact Ef.
+    + inversion Ef. left. reflexivity.
+  - inversion H. left. reflexivity.
+Qed.
+
+Lemma path_exists_cons fs p q d : path_exists ((q, d) :: fs) p = true -> p = q \/ path_exists fs p = true.
+Proof.
+  unfold path_exists. cbn. destruct (bytes_eqb p q) eqn:E; [left; apply bytes_eqb_spec; exact E|right; exact H].
+Qed.
+
+(* never overwrites: every file that existed keeps its content *)
+Theorem autosave_no_overwrite c fs ms s rets p d :
+  run c (init_st fs) ms = Ok (s, rets) -> lookup_path p fs = Some d -> lookup_path p (s_fs s) = Some d.
+Proof.
+  intros H Hp.
+  refine (run_app_inv (fun _ s => lookup_path p (s_fs s) = Some d) c _ ms [] (init_st fs) s rets Hp H).
+  intros pre s0 m s' b H0 Hs. apply step_fs in Hs. destruct Hs as [->|[t [d0 [-> He]]]]; [exact H0|].
+  apply lookup_path_cons_new; assumption.
+Qed.
+
+(* never writes outside: every file that exists after the run existed before or is dir/<single normal component> *)
+Theorem autosave_confined c fs ms s rets p :
+  run c (init_st fs) ms = Ok (s, rets) -> path_exists (s_fs s) p = true ->
+  path_exists fs p = true \/ exists base, single_normal base /\ p = path_join (save_dir c) base.
+Proof.
+  intros H.
+  refine (run_app_inv (fun _ s => path_exists (s_fs s) p = true ->
+     path_exists fs p = true \/ exists base, single_normal base /\ p = path_join (save_dir c) base) c _ ms [] (init_st fs) s rets _ H);
+    [|auto].
+  intros pre s0 m s' b H0 Hs Hp. apply step_fs in Hs. destruct Hs as [E|[t [d0 [E He]]]]; rewrite E in Hp; [auto|].
+  apply path_exists_cons in Hp. destruct Hp as [->|Hp]; [|auto].
+  right. exists (base_name t). split; [apply base_name_single_normal|reflexivity].
+Qed.
+
+(* ------------------------------------------------------------------ what one message does to one transfer *)
+(* the transfer key a message addresses *)
+Definition msg_key (c : cfg) (m : msg) : option key :=
+  match classify c m with
+  | KFlst => Some (m_ecu m, m_lc m, f_serial (parse_flst (m_args m)))
+  | KFlda => match flda_args (m_args m) with Some (serial, _, _) => Some (m_ecu m, m_lc m, serial) | None => None end
+  | KFlfi => Some (m_ecu m, m_lc m, flfi_serial (m_args m))
+  | KOther => None
+  end.
+
+Lemma update_state_shape s s' :
+  update_state s = Ok s' ->
+  s_transfers s' = map ho_t (s_transfers s) /\ s_idx s' = s_idx s /\
+  s_completed s' = taken 0 (s_transfers s) ++ s_completed s /\ s_pub s' = map ho_t (s_transfers s).
+Proof.
+  unfold update_state, add_chk. destruct (s_gen s + 1 <=? u32max); cbn [bind]; [|discriminate].
+  intros H. inversion H. cbn. auto.
+Qed.
+
+Lemma ho_t_id t : takes t = false -> ho_t t = t.
+Proof. unfold ho_t. intros ->. reflexivity. Qed.
+
+(* transfer i after update_state of a state where it does not hand over data *)
+Lemma update_state_at s s' i t :
+  update_state s = Ok s' -> nth_error (s_transfers s) i = Some t -> takes t = false ->
+  nth_error (s_transfers s') i = Some t /\ lookup_nat i (s_completed s') = lookup_nat i (s_completed s) /\
+  nth_error (s_pub s') i = Some t.
+Proof.
+  intros H Ht Hk. apply update_state_shape in H. destruct H as [E1 [_ [E3 E4]]].
+  rewrite E1, E3, E4, nth_error_map, Ht. cbn. rewrite (ho_t_id _ Hk). split; [reflexivity|]. split; [|reflexivity].
+  rewrite lookup_nat_app, lookup_taken_none; [reflexivity|]. intros t0. rewrite Nat.sub_0_r, Ht. intros E. inversion E; subst. exact Hk.
+Qed.
+
+Lemma after_change_other c s j t1 s' i t :
+  after_change c s j t1 = Ok s' -> i <> j -> nth_error (s_transfers s) i = Some t -> takes t = false ->
+  nth_error (s_transfers s') i = Some t /\ lookup_nat i (s_completed s') = lookup_nat i (s_completed s) /\ s_idx s' = s_idx s.
+Proof.
+  unfold after_change. intros H Hne Ht Hk.
+  destruct (if tstate_eqb (t_state t1) Complete then check_auto_save c t1 (s_fs s) else (t1, s_fs s)) as [t2 fs2].
+  pose proof (update_state_shape _ _ H) as [_ [E2 _]].
+  apply (update_state_at _ _ i t) in H; [|cbn; rewrite nth_error_replace_other by auto; exact Ht|exact Hk].
+  cbn in *. destruct H as [H1 [H2 _]]. auto.
+Qed.
+
+Lemma push_update_at s t0 s' i t :
+  update_state (push_transfer s t0) = Ok s' -> nth_error (s_transfers s) i = Some t -> takes t = false ->
+  nth_error (s_transfers s') i = Some t /\ lookup_nat i (s_completed s') = lookup_nat i (s_completed s) /\
+  s_idx s' = (t_key t0, length (s_transfers s)) :: s_idx s.
+Proof.
+  intros H Ht Hk. pose proof (update_state_shape _ _ H) as [_ [E2 _]].
+  apply (update_state_at _ _ i t) in H; [|cbn; rewrite nth_error_app1; [exact Ht|apply nth_error_Some; rewrite Ht; discriminate]|exact Hk].
+  cbn in *. destruct H as [H1 [H2 _]]. auto.
+Qed.
+
+(* a step either leaves transfer i (and its handed-over data) alone, or applies add_flda / check_finished(true) to it *)
+Lemma step_at c s m s' b i t :
+  step c s m = Ok (s', b) -> nth_error (s_transfers s) i = Some t -> takes t = false ->
+  (s_idx s' = s_idx s \/ exists k', s_idx s' = (k', length (s_transfers s)) :: s_idx s /\ msg_key c m = Some k') /\
+  ((nth_error (s_transfers s') i = Some t /\ lookup_nat i (s_completed s') = lookup_nat i (s_completed s))
+   \/ (exists km pnr raw t1 ch, flda_op c m = Some (km, (pnr, raw)) /\ lookup_key km (s_idx s) = Some i /\
+         add_flda t pnr raw = Ok (t1, ch) /\
+         (if ch then after_change c s i t1 = Ok s' else s' = put_transfer s i t1))
+   \/ (exists km t1 ch, classify c m = KFlfi /\ msg_key c m = Some km /\ lookup_key km (s_idx s) = Some i /\
+         check_finished t true = Ok (t1, ch) /\
+         (if ch then after_change c s i t1 = Ok s' else s' = put_transfer s i t1))).
+Proof.
+  intros H Ht Hk. unfold step in H. unfold msg_key, flda_op. destruct (classify c m) eqn:Ec.
+  - unfold step_flst in H. destruct ((0 <? f_nr (parse_flst (m_args m))) && (0 <? f_bs (parse_flst (m_args m)))); cbn [bind] in H.
+    2:{ inversion H; subst. auto. }
+    destruct (with_capacity _); cbn [bind] in H; try discriminate.
+    destruct (update_state _) as [s1| |] eqn:Eu; cbn [bind] in H; try discriminate. inversion H; subst s1 b; clear H.
+    destruct (push_update_at _ _ _ _ _ Eu Ht Hk) as [H1 [H2 H3]]. split; [right; eexists; split; [exact H3|reflexivity]|left; auto].
+  - unfold step_flda in H. destruct (flda_args (m_args m)) as [[[serial pnr] raw]|]; cbn [bind] in H.
+    2:{ inversion H; subst. auto. }
+    destruct (flda_apply _ _ _ _ _) as [s1| |] eqn:Ef; cbn [bind] in H; try discriminate. inversion H; subst s1 b; clear H.
+    unfold flda_apply in Ef. destruct (lookup_key _ _) as [j|] eqn:El.
+    + destruct (nth_error (s_transfers s) j) as [tj|] eqn:Ej; [|discriminate].
+      destruct (add_flda tj pnr raw) as [[t' ch]| |] eqn:Ea; cbn [bind] in Ef; try discriminate.
+      destruct (Nat.eq_dec i j) as [->|Hne].
+      * rewrite Ht in Ej. inversion Ej; subst tj. split.
+        { left. destruct ch; [|inversion Ef; reflexivity]. unfold after_change in Ef.
+          destruct (if tstate_eqb _ _ then _ else _) as [t2 fs2]. apply update_state_shape in Ef. cbn in Ef. tauto. }
+        right. left. exists (m_ecu m, m_lc m, serial), pnr, raw, t', ch. repeat split; auto.
+        destruct ch; [exact Ef|inversion Ef; reflexivity].
+      * destruct ch.
+        -- destruct (after_change_other _ _ _ _ _ _ _ Ef Hne Ht Hk) as [H1 [H2 H3]]. auto.
+        -- inversion Ef; subst s'. cbn. rewrite nth_error_replace_other by auto. auto.
+    + destruct (pnr =? 1); [|inversion Ef; subst; auto].
+      destruct (with_capacity _) as [cap0| |]; cbn [bind] in Ef; try discriminate.
+      destruct (add_flda _ _ _) as [[t' ch]| |] eqn:Ea; cbn [bind] in Ef; try discriminate.
+      destruct (push_update_at _ _ _ _ _ Ef Ht Hk) as [H1 [H2 H3]]. split; [|left; auto]. right.
+      assert (Hkk : t_key t' = (m_ecu m, m_lc m, serial)).
+      { unfold add_flda in Ea. assert (HT : TLoc [] (mkT (m_ecu m, m_lc m, serial) MISSING_FLST u64max MissingStart 0 0 1 0 0 cap0 [] None) []).
+        { constructor; cbn; auto; try discriminate; try lia. apply sl_nil. intros _. unfold u64max. lia. }
+        destruct (add_flda_TLoc _ _ _ _ _ _ _ HT Ea) as [acc' [_ HP]]. rewrite (fp_key _ _ _ _ _ _ _ HP). reflexivity. }
+      rewrite Hkk in H3. eexists; split; [exact H3|reflexivity].
+  - unfold step_flfi in H. destruct (flfi_apply _ _ _) as [s1| |] eqn:Ef; cbn [bind] in H; try discriminate. inversion H; subst s1 b; clear H.
+    unfold flfi_apply in Ef. destruct (lookup_key _ _) as [j|] eqn:El; [|inversion Ef; subst; auto].
+    destruct (nth_error (s_transfers s) j) as [tj|] eqn:Ej; [|discriminate].
+    destruct (check_finished tj true) as [[t' ch]| |] eqn:Ea; cbn [bind] in Ef; try discriminate.
+    destruct (Nat.eq_dec i j) as [->|Hne].
+    + rewrite Ht in Ej. inversion Ej; subst tj. split.
+      { left. destruct ch; [|inversion Ef; reflexivity]. unfold after_change in Ef.
+        destruct (if tstate_eqb _ _ then _ else _) as [t2 fs2]. apply update_state_shape in Ef. cbn in Ef. tauto. }
+      right. right. exists (m_ecu m, m_lc m, flfi_serial (m_args m)), t', ch. repeat split; auto.
+      destruct ch; [exact Ef|inversion Ef; reflexivity].
+    + destruct ch.
+      * destruct (after_change_other _ _ _ _ _ _ _ Ef Hne Ht Hk) as [H1 [H2 H3]]. auto.
+      * inversion Ef; subst s'. cbn. rewrite nth_error_replace_other by auto. auto.
+  - inversion H; subst. auto.
+Qed.
+
+(* ------------------------------------------------------------------ the in-order run *)
+(* the part of the log after the announcement, relative to key k: messages for other keys / unrelated
+   messages, duplicates of packages already sent, and the packages [chunks] numbered next, next+1, ...
+   in this order; after the last package anything may follow *)
+Inductive InOrder (c : cfg) (k : key) : N -> list (list N) -> list msg -> Prop :=
+| io_done next ms : InOrder c k next [] ms
+| io_other next chunks m ms :
+    msg_key c m <> Some k -> InOrder c k next chunks ms -> InOrder c k next chunks (m :: ms)
+| io_dup next chunks m ms pnr raw :
+    flda_op c m = Some (k, (pnr, raw)) -> 0 < pnr -> pnr < next ->
+    InOrder c k next chunks ms -> InOrder c k next chunks (m :: ms)
+| io_pkg next p chunks m ms :
+    flda_op c m = Some (k, (next, p)) -> InOrder c k (next + 1) chunks ms -> InOrder c k next (p :: chunks) (m :: ms).
+
+(* every package has the announced size, the one numbered nr may be shorter *)
+Fixpoint chunks_ok (bs nr next : N) (chunks : list (list N)) : Prop :=
+  match chunks with
+  | [] => True
+  | p :: r => (if next =? nr then lenN p <= bs else lenN p = bs) /\ chunks_ok bs nr (next + 1) r
+  end.
+
+Lemma flda_op_msg_key c m km op : flda_op c m = Some (km, op) -> msg_key c m = Some km.
+Proof.
+  unfold flda_op, msg_key. destruct (classify c m); try discriminate.
+  destruct (flda_args (m_args m)) as [[[serial pnr] raw]|]; [|discriminate]. intros H. inversion H. reflexivity.
+Qed.
+
+Lemma step_flda_at c s m s' b k pnr raw i t :
+  flda_op c m = Some (k, (pnr, raw)) -> lookup_key k (s_idx s) = Some i -> nth_error (s_transfers s) i = Some t ->
+  step c s m = Ok (s', b) ->
+  exists t1 ch, add_flda t pnr raw = Ok (t1, ch) /\ (if ch then after_change c s i t1 = Ok s' else s' = put_transfer s i t1).
+Proof.
+  unfold flda_op, step. destruct (classify c m); try discriminate.
+  unfold step_flda. destruct (flda_args (m_args m)) as [[[serial pnr0] raw0]|]; [|discriminate].
+  intros H El Ht Hs. inversion H; subst k pnr0 raw0; clear H.
+  destruct (flda_apply _ _ _ _ _) as [s1| |] eqn:Ef; cbn [bind] in Hs; try discriminate. inversion Hs; subst s1 b; clear Hs.
+  unfold flda_apply in Ef. rewrite El, Ht in Ef.
+  destruct (add_flda t pnr raw) as [[t1 ch]| |]; cbn [bind] in Ef; try discriminate.
+  exists t1, ch. split; [reflexivity|]. destruct ch; [exact Ef|inversion Ef; reflexivity].
+Qed.
+
+Ltac tcbn H := cbn [t_key t_name t_nr t_state t_size t_bs t_next t_recvd t_payload t_cap t_data t_saved set_recvd set_next set_payload set_data set_buf set_state set_size set_saved set_bs is_active] in H.
+
+Section InOrderRun.
+  Variables (c : cfg) (k : key) (name : list N) (nr size bs cap : N) (i : nat).
+  Hypothesis Hbs : 0 < bs.
+  Hypothesis Hnr : 0 < nr.
+
+  Definition T_run (next : N) (done : list (list N)) : transfer :=
+    mkT k name nr Started size bs next (next - 1) (lenN (concat done)) cap (if 0 <? cap then concat done else []) None.
+
+  Definition Ph (next : N) (done : list (list N)) (s : st) : Prop :=
+    lookup_key k (s_idx s) = Some i /\ (forall k', lookup_key k' (s_idx s) = Some i -> k' = k) /\
+    nth_error (s_transfers s) i = Some (T_run next done).
+
+  Definition Done (file : list N) (s : st) : Prop :=
+    exists t, nth_error (s_transfers s) i = Some t /\ t_key t = k /\ t_state t = Complete /\ t_name t = name /\
+              t_size t = lenN file /\ t_data t = [] /\ 0 < t_bs t /\ 1 <= t_next t /\ t_recvd t = t_next t - 1 /\
+              (c_allow_save c = true -> file <> [] -> lookup_nat i (s_completed s) = Some file).
+
+  Lemma takes_T_run next done : takes (T_run next done) = false.
+  Proof. unfold takes. cbn. apply andb_false_r. Qed.
+
+  Lemma Ph_other next done s m s' b :
+    Ph next done s -> msg_key c m <> Some k -> step c s m = Ok (s', b) -> Ph next done s'.
+  Proof.
+    intros [P1 [P2 P3]] Hk Hs.
+    destruct (step_at _ _ _ _ _ _ _ Hs P3 (takes_T_run _ _)) as [Hidx Hcase].
+    assert (Hl : (i < length (s_transfers s))%nat) by (apply nth_error_Some; rewrite P3; discriminate).
+    destruct Hcase as [[H1 _]|[[km [pnr [raw [t1 [ch [Hop [Hl2 _]]]]]]]|[km [t1 [ch [_ [Hmk [Hl2 _]]]]]]]].
+    - split; [|split; [|exact H1]].
+      + destruct Hidx as [->|[k' [-> Hk']]]; [exact P1|]. cbn. rewrite key_eqb_neq; [exact P1|]. congruence.
+      + intros k0 H0. destruct Hidx as [E|[k' [E Hk']]]; rewrite E in H0; [auto|]. cbn in H0.
+        destruct (key_eqb k0 k'); [inversion H0; lia|auto].
+    - exfalso. apply Hk. apply P2 in Hl2. subst km. eapply flda_op_msg_key. exact Hop.
+    - exfalso. apply Hk. apply P2 in Hl2. subst km. exact Hmk.
+  Qed.
+
+  Lemma Ph_dup next done s m s' b pnr raw :
+    Ph next done s -> flda_op c m = Some (k, (pnr, raw)) -> 0 < pnr -> pnr < next ->
+    step c s m = Ok (s', b) -> Ph next done s'.
+  Proof.
+    intros [P1 [P2 P3]] Hop Hp1 Hp2 Hs.
+    destruct (step_flda_at _ _ _ _ _ _ _ _ _ _ Hop P1 P3 Hs) as [t1 [ch [Ha Hr]]].
+    unfold add_flda, add_flda_gen, T_run in Ha. tcbn Ha.
+    replace (bs =? 0) with false in Ha by (symmetry; apply N.eqb_neq; lia). rewrite andb_false_r in Ha. tcbn Ha.
+    replace (0 <? pnr) with true in Ha by (symmetry; apply N.ltb_lt; exact Hp1).
+    replace (pnr <? next) with true in Ha by (symmetry; apply N.ltb_lt; exact Hp2).
+    cbn in Ha. inversion Ha; subst t1 ch; clear Ha. subst s'. unfold put_transfer. fold (T_run next done).
+    rewrite (replace_nth_id _ _ _ P3). split; [exact P1|split; [exact P2|exact P3]].
+  Qed.
+
+  (* add_flda on the running transfer with the expected package *)
+  Lemma add_flda_T_run next done p t1 ch :
+    1 <= next -> next <= nr -> (if next =? nr then lenN p <= bs else lenN p = bs) ->
+    add_flda (T_run next done) next p = Ok (t1, ch) ->
+    (next < nr /\ t1 = T_run (next + 1) (done ++ [p]) /\ ch = false) \/
+    (next = nr /\ ch = true /\
+       ((size = 0 \/ size = lenN (concat (done ++ [p]))) /\
+        t1 = mkT k name nr Complete (lenN (concat (done ++ [p]))) bs (next + 1) next (lenN (concat (done ++ [p]))) cap
+                 (if 0 <? cap then concat (done ++ [p]) else []) None
+        \/ ~ (size = 0 \/ size = lenN (concat (done ++ [p]))) /\ t_state t1 = Incomplete)).
+  Proof.
+    intros Hn1 Hn2 Hsz Ha. unfold add_flda, add_flda_gen, T_run in Ha. tcbn Ha.
+    replace (bs =? 0) with false in Ha by (symmetry; apply N.eqb_neq; lia). rewrite andb_false_r in Ha. tcbn Ha.
+    replace (next <? next) with false in Ha by (symmetry; apply N.ltb_irrefl). rewrite andb_false_r in Ha.
+    unfold add_chk in Ha.
+    destruct (next - 1 + 1 <=? u64max) eqn:E1; cbn [bind] in Ha; [|discriminate].
+    tcbn Ha. rewrite N.eqb_refl in Ha. cbn [andb] in Ha.
+    replace ((lenN p =? bs) || (next =? nr) && (lenN p <? bs)) with true in Ha.
+    2:{ symmetry. destruct (next =? nr) eqn:En.
+        - destruct (lenN p =? bs) eqn:E2; [reflexivity|]. apply N.eqb_neq in E2. cbn. apply N.ltb_lt. lia.
+        - apply orb_true_iff. left. apply N.eqb_eq. exact Hsz. }
+    destruct (next + 1 <=? u64max) eqn:E2; cbn [bind] in Ha; [|discriminate].
+    destruct (lenN (concat done) + lenN p <=? usizemax) eqn:E3; cbn [bind] in Ha; [|discriminate].
+    assert (Hpl : lenN (concat done) + lenN p = lenN (concat (done ++ [p]))).
+    { rewrite concat_app, lenN_app. cbn. rewrite app_nil_r. reflexivity. }
+    assert (Hdata : (if 0 <? cap then (if 0 <? cap then concat done else []) ++ p else (if 0 <? cap then concat done else []))
+                    = (if 0 <? cap then concat (done ++ [p]) else [])).
+    { destruct (0 <? cap); [|reflexivity]. rewrite concat_app. cbn. rewrite app_nil_r. reflexivity. }
+    tcbn Ha. rewrite Hdata, Hpl in Ha.
+    unfold check_finished in Ha. tcbn Ha.
+    assert (Hr : next - 1 + 1 = next) by lia. rewrite Hr in Ha.
+    destruct (next =? nr) eqn:En.
+    - apply N.eqb_eq in En. right. split; [exact En|]. subst next.
+      replace (nr <? nr + 1) with true in Ha by (symmetry; apply N.ltb_lt; lia). cbn [andb] in Ha.
+      destruct ((size =? 0) || (size =? lenN (concat (done ++ [p])))) eqn:Es.
+      + inversion Ha; subst t1 ch. split; [reflexivity|]. left. apply orb_true_iff in Es. rewrite !N.eqb_eq in Es.
+        split; [exact Es|]. reflexivity.
+      + replace (nr <=? nr) with true in Ha by (symmetry; apply N.leb_le; lia).
+        inversion Ha; subst t1 ch. split; [reflexivity|]. right. apply orb_false_iff in Es. rewrite !N.eqb_neq in Es.
+        split; [tauto|reflexivity].
+    - apply N.eqb_neq in En. left. assert (Hlt : next < nr) by lia. split; [exact Hlt|].
+      replace (nr <? next + 1) with false in Ha by (symmetry; apply N.ltb_ge; lia). cbn [andb] in Ha.
+      replace (nr <=? next) with false in Ha by (symmetry; apply N.leb_gt; lia).
+      inversion Ha; subst t1 ch. split; [|reflexivity].
+      unfold T_run, set_data, set_buf, set_payload, set_next, set_recvd.
+      cbn [t_key t_name t_nr t_state t_size t_bs t_next t_recvd t_payload t_cap t_data t_saved]. f_equal. lia.
+  Qed.
+
+  Lemma Ph_pkg next done s m s' b p :
+    Ph next done s -> flda_op c m = Some (k, (next, p)) -> 1 <= next -> next < nr -> lenN p = bs ->
+    step c s m = Ok (s', b) -> Ph (next + 1) (done ++ [p]) s'.
+  Proof.
+    intros [P1 [P2 P3]] Hop Hn1 Hn2 Hsz Hs.
+    destruct (step_flda_at _ _ _ _ _ _ _ _ _ _ Hop P1 P3 Hs) as [t1 [ch [Ha Hr]]].
+    apply add_flda_T_run in Ha; try lia.
+    2:{ replace (next =? nr) with false by (symmetry; apply N.eqb_neq; lia). exact Hsz. }
+    destruct Ha as [[_ [-> ->]]|[Hc _]]; [|lia]. subst s'. unfold put_transfer. cbn.
+    assert (Hl : (i < length (s_transfers s))%nat) by (apply nth_error_Some; rewrite P3; discriminate).
+    split; [exact P1|split; [exact P2|]]. apply nth_error_replace_same. exact Hl.
+  Qed.
+
+  Lemma check_auto_save_fields t fs :
+    t_key (fst (check_auto_save c t fs)) = t_key t /\ t_state (fst (check_auto_save c t fs)) = t_state t /\
+    t_name (fst (check_auto_save c t fs)) = t_name t /\ t_size (fst (check_auto_save c t fs)) = t_size t /\
+    t_bs (fst (check_auto_save c t fs)) = t_bs t /\ t_next (fst (check_auto_save c t fs)) = t_next t /\
+    t_recvd (fst (check_auto_save c t fs)) = t_recvd t /\
+    (c_allow_save c = true -> t_data (fst (check_auto_save c t fs)) = t_data t).
+  Proof.
+    unfold check_auto_save. destruct (c_glob c) as [g|]; [|cbn; tauto].
+    destruct (tstate_eqb (t_state t) Complete && negb (bytes_eqb (t_data t) []) && g (t_name t)); [|cbn; tauto].
+    destruct (negb (path_exists fs (path_join (save_dir c) (base_name t)))); cbn [fst t_cap set_saved].
+    - destruct (c_allow_save c); cbn; [tauto|]. destruct (0 <? t_cap t); cbn; repeat split; intros; discriminate.
+    - destruct (c_allow_save c); cbn; [tauto|]. destruct (0 <? t_cap t); cbn; repeat split; intros; discriminate.
+  Qed.
+
+  Lemma Ph_last next done s m s' b p :
+    Ph next done s -> flda_op c m = Some (k, (next, p)) -> 1 <= next -> next = nr -> lenN p <= bs ->
+    (size = 0 \/ size = lenN (concat (done ++ [p]))) -> (c_allow_save c = true -> 0 < cap) ->
+    step c s m = Ok (s', b) -> Done (concat (done ++ [p])) s'.
+  Proof.
+    intros [P1 [P2 P3]] Hop Hn1 Hn2 Hsz Hsize Hcap Hs.
+    destruct (step_flda_at _ _ _ _ _ _ _ _ _ _ Hop P1 P3 Hs) as [t1 [ch [Ha Hr]]].
+    apply add_flda_T_run in Ha; try lia.
+    2:{ replace (next =? nr) with true by (symmetry; apply N.eqb_eq; exact Hn2). exact Hsz. }
+    destruct Ha as [[Hc _]|[_ [-> [[_ ->]|[Hc _]]]]]; [lia| |contradiction].
+    set (file := concat (done ++ [p])) in *.
+    unfold after_change in Hr. cbn [t_state tstate_eqb] in Hr.
+    match type of Hr with context [check_auto_save c ?t0 ?fs0] => 
+      pose proof (check_auto_save_fields t0 fs0) as HF; destruct (check_auto_save c t0 fs0) as [t4 fs4] end.
+    cbn [fst] in HF. cbn [t_key t_state t_name t_size t_bs t_next t_recvd t_data] in HF.
+    destruct HF as [F1 [F2 [F3 [F4 [F5 [F6 [F7 F8]]]]]]].
+    assert (Hl : (i < length (s_transfers s))%nat) by (apply nth_error_Some; rewrite P3; discriminate).
+    apply update_state_shape in Hr. cbn in Hr. destruct Hr as [E1 [_ [E3 _]]].
+    exists (ho_t t4). rewrite E1, nth_error_map, nth_error_replace_same by exact Hl. cbn [option_map].
+    destruct (ho_t_static t4) as [G1 [G2 [_ [G4 [_ [G6 [G7 [_ G9]]]]]]]].
+    rewrite G1, G2, G4, G6, G7, G9, F1, F2, F3, F4, F5, F6.
+    assert (Hrec : t_recvd (ho_t t4) = next) by (unfold ho_t; destruct (takes t4); cbn; exact F7).
+    rewrite Hrec. repeat split; auto; try lia.
+    - unfold ho_t. destruct (takes t4) eqn:Et; [reflexivity|]. unfold takes in Et. rewrite F2 in Et. cbn in Et.
+      rewrite andb_true_r in Et. apply negb_false_iff, bytes_eqb_spec in Et. exact Et.
+    - intros Hc Hne. rewrite E3, lookup_nat_app.
+      assert (Hd : t_data t4 = file).
+      { rewrite F8 by auto. apply Hcap in Hc. apply N.ltb_lt in Hc. rewrite Hc. reflexivity. }
+      assert (Htk : takes t4 = true).
+      { unfold takes. rewrite F2, Hd. cbn. rewrite andb_true_r. apply negb_true_iff. apply bytes_eqb_nil_false. exact Hne. }
+      pose proof (lookup_taken_some (replace_nth i t4 (s_transfers s)) i t4 (nth_error_replace_same _ _ _ Hl) Htk 0%nat) as Hlk.
+      cbn in Hlk. rewrite Hlk, Hd. reflexivity.
+  Qed.
+
+  Lemma Done_step file s m s' b : Done file s -> step c s m = Ok (s', b) -> Done file s'.
+  Proof.
+    intros [t [D1 [D2 [D3 [D4 [D5 [D6 [D7 [D8 [D9 D10]]]]]]]]]] Hs.
+    assert (Htk : takes t = false) by (unfold takes; rewrite D6; reflexivity).
+    assert (Hl : (i < length (s_transfers s))%nat) by (apply nth_error_Some; rewrite D1; discriminate).
+    destruct (step_at _ _ _ _ _ _ _ Hs D1 Htk) as [_ Hcase].
+    assert (Hsame : s' = put_transfer s i t -> Done file s').
+    { intros ->. exists t. unfold put_transfer. cbn. rewrite nth_error_replace_same by exact Hl. repeat split; auto. }
+    destruct Hcase as [[H1 H2]|[[km [pnr [raw [t1 [ch [_ [_ [Ha Hr]]]]]]]]|[km [t1 [ch [_ [_ [_ [Ha Hr]]]]]]]]].
+    - exists t. rewrite H2. repeat split; auto.
+    - unfold add_flda, add_flda_gen in Ha.
+      replace (t_bs t =? 0) with false in Ha by (symmetry; apply N.eqb_neq; lia). rewrite andb_false_r in Ha.
+      rewrite D3 in Ha. cbn in Ha. inversion Ha; subst t1 ch. auto.
+    - unfold check_finished, sub_chk in Ha.
+      replace (1 <=? t_next t) with true in Ha by (symmetry; apply N.leb_le; exact D8). cbn [bind] in Ha.
+      rewrite D9, N.eqb_refl, D3 in Ha. inversion Ha; subst t1 ch. auto.
+  Qed.
+
+  Lemma Done_run file ms : forall s s' rets, Done file s -> run c s ms = Ok (s', rets) -> Done file s'.
+  Proof.
+    induction ms as [|m r IH]; intros s s' rets HD H; cbn in H.
+    - inversion H; subst. exact HD.
+    - destruct (step c s m) as [[s1 b]| |] eqn:Es; cbn [bind] in H; try discriminate.
+      destruct (run c s1 r) as [[s2 bs0]| |] eqn:Er; cbn [bind] in H; try discriminate.
+      inversion H; subst s2 rets. eapply IH; [|exact Er]. eapply Done_step; eassumption.
+  Qed.
+
+  Lemma InOrder_run next chunks post :
+    InOrder c k next chunks post ->
+    forall s done s' rets,
+      Ph next done s -> chunks <> [] -> 1 <= next -> next + N.of_nat (length chunks) = nr + 1 ->
+      chunks_ok bs nr next chunks ->
+      (size = 0 \/ size = lenN (concat (done ++ chunks))) -> (c_allow_save c = true -> 0 < cap) ->
+      run c s post = Ok (s', rets) -> Done (concat (done ++ chunks)) s'.
+  Proof.
+    induction 1 as [next ms|next chunks m ms Hk Hio IH|next chunks m ms pnr raw Hop Hp1 Hp2 Hio IH|next p chunks m ms Hop Hio IH];
+      intros s done s' rets HP Hne Hn1 Hcnt Hok Hsize Hcap Hrun.
+    - contradiction.
+    - cbn in Hrun. destruct (step c s m) as [[s1 b]| |] eqn:Es; cbn [bind] in Hrun; try discriminate.
+      destruct (run c s1 ms) as [[s2 bs0]| |] eqn:Er; cbn [bind] in Hrun; try discriminate. inversion Hrun; subst s2 rets.
+      apply (IH s1 done s' bs0); auto. eapply Ph_other; eassumption.
+    - cbn in Hrun. destruct (step c s m) as [[s1 b]| |] eqn:Es; cbn [bind] in Hrun; try discriminate.
+      destruct (run c s1 ms) as [[s2 bs0]| |] eqn:Er; cbn [bind] in Hrun; try discriminate. inversion Hrun; subst s2 rets.
+      apply (IH s1 done s' bs0); auto. eapply Ph_dup; eassumption.
+    - cbn in Hrun. destruct (step c s m) as [[s1 b]| |] eqn:Es; cbn [bind] in Hrun; try discriminate.
+      destruct (run c s1 ms) as [[s2 bs0]| |] eqn:Er; cbn [bind] in Hrun; try discriminate. inversion Hrun; subst s2 rets.
+      cbn [chunks_ok] in Hok. destruct Hok as [Hsz Hok]. cbn [length] in Hcnt.
+      replace (done ++ p :: chunks) with ((done ++ [p]) ++ chunks) in * by (rewrite <- app_assoc; reflexivity).
+      destruct chunks as [|q chunks].
+      + (* last package *)
+        assert (Hnn : next = nr) by (cbn in Hcnt; lia).
+        rewrite app_nil_r in *. eapply Done_run; [|exact Er].
+        eapply Ph_last; eauto. rewrite Hnn, N.eqb_refl in Hsz. exact Hsz.
+      + assert (Hlt : next < nr) by (cbn [length] in Hcnt; lia).
+        apply (IH s1 (done ++ [p]) s' bs0); auto; try discriminate; try lia.
+        eapply Ph_pkg; eauto. replace (next =? nr) with false in Hsz by (symmetry; apply N.eqb_neq; lia). exact Hsz.
+  Qed.
+End InOrderRun.
+
+Lemma run_app c : forall a b s s' rets,
+  run c s (a ++ b) = Ok (s', rets) -> exists s1 r1 r2, run c s a = Ok (s1, r1) /\ run c s1 b = Ok (s', r2).
+Proof.
+  induction a as [|m a IH]; intros b s s' rets H; cbn in H.
+  - exists s, [], rets. split; [reflexivity|exact H].
+  - destruct (step c s m) as [[s1 b0]| |] eqn:Es; cbn [bind] in H; try discriminate.
+    destruct (run c s1 (a ++ b)) as [[s2 bs0]| |] eqn:Er; cbn [bind] in H; try discriminate.
+    inversion H; subst s2 rets. destruct (IH _ _ _ _ Er) as [sa [r1 [r2 [Ha Hb]]]].
+    exists sa, (b0 :: r1), r2. split; [|exact Hb]. cbn. rewrite Es. cbn [bind]. rewrite Ha. reflexivity.
+Qed.
+
+Lemma flst_capacity_pos nr bs : 0 < nr -> 0 < bs -> 0 < flst_capacity nr bs.
+Proof. intros H1 H2. unfold flst_capacity, MAX_PREALLOC, u64max. nia. Qed.
+
+(* announcement, packages 1..n in order (interleaved with anything that does not address the key and
+   with duplicates of packages already sent), then anything: Complete, the stored bytes are the file *)
+Theorem inorder_complete_exact c fs pre mflst post k f chunks s rets :
+  flst_of c mflst = Some (k, f) ->
+  chunks <> [] -> N.of_nat (length chunks) = f_nr f -> chunks_ok (f_bs f) (f_nr f) 1 chunks ->
+  (f_size f = 0 \/ f_size f = lenN (concat chunks)) ->
+  InOrder c k 1 chunks post ->
+  run c (init_st fs) (pre ++ mflst :: post) = Ok (s, rets) ->
+  exists i t, nth_error (s_transfers s) i = Some t /\ t_key t = k /\ t_state t = Complete /\ t_name t = f_name f /\
+              t_size t = lenN (concat chunks) /\
+              (c_allow_save c = true -> concat chunks <> [] -> saved_bytes s i = Some (concat chunks)) /\
+              nth_error (map (fun t => (t_key t, t_state t)) (s_pub s)) i = Some (k, Complete).
+Proof.
+  intros Hf Hne Hcnt Hok Hsize Hio Hrun.
+  pose proof (published_states_current _ _ _ _ _ Hrun) as Hpub.
+  destruct (run_app _ _ _ _ _ _ Hrun) as [s1 [r1 [r2 [Hpre Hrest]]]].
+  destruct (run_Inv _ _ _ _ _ Hpre) as [HI1 _].
+  cbn in Hrest. destruct (step c s1 mflst) as [[s2 b]| |] eqn:Es; cbn [bind] in Hrest; try discriminate.
+  destruct (run c s2 post) as [[s3 r3]| |] eqn:Er; cbn [bind] in Hrest; try discriminate. inversion Hrest; subst s3 r2; clear Hrest.
+  unfold flst_of in Hf. unfold step in Es. destruct (classify c mflst); try discriminate. cbn zeta in Hf.
+  unfold step_flst in Es.
+  destruct ((0 <? f_nr (parse_flst (m_args mflst))) && (0 <? f_bs (parse_flst (m_args mflst)))) eqn:Econd; [|discriminate].
+  inversion Hf; subst k f; clear Hf. set (f := parse_flst (m_args mflst)) in *.
+  set (k := (m_ecu mflst, m_lc mflst, f_serial f)) in *.
+  apply andb_true_iff in Econd. destruct Econd as [En Eb]. apply N.ltb_lt in En, Eb.
+  unfold with_capacity in Es.
+  set (capv := if c_allow_save c || glob_matches c (f_name f) then flst_capacity (f_nr f) (f_bs f) else 0) in Es.
+  destruct (capv <=? 9223372036854775807); cbn [bind] in Es; [|discriminate].
+  match type of Es with context [update_state (push_transfer s1 ?tt)] => set (t0 := tt) in Es end.
+  destruct (update_state (push_transfer s1 t0)) as [s2'| |] eqn:Eu; cbn [bind] in Es; try discriminate.
+  inversion Es; subst s2' b; clear Es.
+  set (i := length (s_transfers s1)).
+  assert (Ht0 : t0 = T_run k (f_name f) (f_nr f) (f_size f) (f_bs f) capv 1 []).
+  { unfold t0, T_run. cbn. destruct (0 <? capv); reflexivity. }
+  assert (HPh : Ph k (f_name f) (f_nr f) (f_size f) (f_bs f) capv i 1 [] s2).
+  { apply update_state_shape in Eu. cbn in Eu. destruct Eu as [E1 [E2 _]]. unfold Ph. rewrite E1, E2. split; [|split].
+    - cbn. rewrite key_eqb_refl. reflexivity.
+    - intros k' Hk'. cbn in Hk'. destruct (key_eqb k' k) eqn:E; [apply key_eqb_spec; exact E|].
+      destruct (inv_idx _ _ _ HI1 k' i Hk') as [tx [Hx _]]. exfalso.
+      assert (Hlt : (i < length (s_transfers s1))%nat) by (apply nth_error_Some; rewrite Hx; discriminate). unfold i in Hlt. lia.
+    - rewrite nth_error_map, nth_error_app2 by (unfold i; lia). unfold i. rewrite Nat.sub_diag. cbn.
+      rewrite <- Ht0. rewrite ho_t_id; [reflexivity|]. unfold takes, t0. cbn. apply andb_false_r. }
+  assert (HD : Done c k (f_name f) capv i (concat chunks) s).
+  { apply (InOrder_run c k (f_name f) (f_nr f) (f_size f) (f_bs f) capv i Eb En 1 chunks post Hio s2 [] s r3); auto; try lia.
+    intros Ha. unfold capv. rewrite Ha. cbn. apply flst_capacity_pos; assumption. }
+  destruct HD as [t [D1 [D2 [D3 [D4 [D5 [D6 [D7 [D8 [D9 D10]]]]]]]]]].
+  exists i, t. repeat split; auto.
+  rewrite Hpub, nth_error_map, D1. cbn. rewrite D2, D3. reflexivity.
 Qed.
